@@ -1,5 +1,5 @@
 (* Model/TriaOrient.v -- executable model of TriaMesh.orient_ and volume()
-   (lapy/tria_mesh.py 302-324, 913-1023 after fix 9148247).  Definitions only. *)
+   (lapy/tria_mesh.py 302-324, 913-1024 after fixes 9148247 and c4eb84f: triangles are flipped by the sign of the flood vector).  Definitions only. *)
 From Coq Require Import List Arith Bool PeanoNat ZArith.
 From LaPyV Require Import Base.Scalar Base.Vec3 Base.ListAux Model.TetMesh Model.TriaAdj.
 Import ListNotations.
@@ -109,7 +109,7 @@ Section Vol.
         | Ok v =>
             if negb (Nat.eqb n (length ts)) then Err IndexError
             else
-              let flags := map (fun x => match x with Some z => Z.eqb z (-1) | None => false end) v in
+              let flags := map (fun x => match x with Some z => Z.ltb z 0 | None => false end) v in
               Ok (map (fun '(t, f) => if (f : bool) then flip01 t else t) (combine ts flags),
                   count_if (fun f => f) flags)
         end.
